@@ -979,6 +979,13 @@ def idiom_nonempty(facts, s):
 
 def idiom_misc(facts, s):
     f, t = s.fn, s.term
+    if "unwrap" in s.what and t.get("args"):
+        # run_count(usize::MAX): Ok(None) means the cycle budget ran out, which 2^64-1 instructions cannot
+        o = f.origin(t["args"][0])
+        if o[0] == "call" and (callee(o[1]) or "").endswith("::run_count") and len(o[1]["args"]) > 1:
+            cb = op_const(o[1]["args"][1])
+            if cb is not None and cb.get("int") == 18446744073709551615:
+                return "I-budget: run_count(usize::MAX) returns Ok(None) only after 2^64-1 instructions"
     if s.kind == "call:string-edit" and s.what.endswith("insert_str"):
         c = op_const(t["args"][1])
         if c is not None and c.get("int") == 0:
